@@ -334,7 +334,7 @@ var c05DNSKinds = []string{"plain", "blocked", "rewrite", "safebrowsing", "paren
 var c05AdminOps = []string{
 	"access_set", "clients", "set_rules", "filter_add_remove", "filtering_config", "refresh",
 	"rewrites", "blocked_services", "protection_pause", "safesearch", "safebrowsing_parental",
-	"querylog_config", "querylog_read", "stats_config", "stats_read", "dns_config", "mixed",
+	"querylog_config", "querylog_read", "stats_config", "stats_read", "dns_config", "stats_reset", "mixed",
 }
 
 func c05GenRun(r *rand.Rand, emit vutil.Emit, n int) {
@@ -814,6 +814,8 @@ func (w *c05World) adminOp(kind string, i int, r *rand.Rand) {
 		if i%4 == 0 {
 			w.call("POST", "/control/stats_reset", "")
 		}
+	case "stats_reset":
+		w.call("POST", "/control/stats_reset", "")
 	case "stats_read":
 		w.call("GET", "/control/stats", "")
 		if i%4 == 0 {
